@@ -46,7 +46,7 @@ def run_harness(exe, args, timeout):
 
 
 def nontrivial(i, o):
-    return i.split(" ")[0] in ("build", "crash", "crashload", "gc", "path", "sum", "opts")
+    return i.split(" ")[0] in ("build", "crash", "crashload", "gc", "path", "sum", "opts", "key")
 
 
 def report(c, prop, v, origin):
